@@ -134,9 +134,14 @@ Definition spec_unset (st : tstate) (p : prop) : option tstate :=
   | PConfig _ => Some (with_node st (set_cfg e TSUnset))
   | PMandatory _ => Some (with_node st (set_mand e TSUnset))
   | PDefault d =>
-      if existsb (str_eqb d) (e_dflt e)
-      then Some (with_node st (set_dflt e (remove_value d (e_dflt e))))
-      else None                                               (* absent or different *)
+      if isLeafList e
+      then if existsb (str_eqb d) (e_dflt e)
+           then Some (with_node st (set_dflt e (remove_value d (e_dflt e))))
+           else None                                          (* not among the defaults *)
+      else match e_dflt e with                                (* any other node has one default statement at most *)
+           | x :: _ => if str_eqb d x then Some (with_node st (set_dflt e [])) else None   (* different *)
+           | [] => None                                       (* absent *)
+           end
   | PMin n =>
       if bounded e && ts_min st && (min_of e =? n)
       then Some {| ts_node := with_min e 0; ts_min := false; ts_max := ts_max st; ts_removed := ts_removed st |}
@@ -257,6 +262,13 @@ Definition remove_target (F : forest) (p : pos) : forest :=
 Definition replace_attrs (F : forest) (p : pos) (new : entry) : forest :=
   update_pos F p (fun old => set_rpc (set_dir new (e_dir old)) (e_rpc old)).
 
+(* the same modules without their deviation statements *)
+Definition strip (m : module) : module :=
+  {| m_name := m_name m; m_prefix := m_prefix m; m_ns := m_ns m; m_belongs := m_belongs m;
+     m_imports := m_imports m; m_includes := m_includes m; m_body := m_body m; m_augments := m_augments m;
+     m_deviations := [] |}.
+Definition strip_devs (SC : schema) : schema := map strip SC.
+
 Section SpecModule.
 Variable SC : schema.
 Variable ignore : bool.
@@ -286,6 +298,19 @@ Fixpoint spec_module (F : forest) (m : module) (ws : list (bool * bool)) (devs :
   | d :: rest =>
     match spec_deviation F m (hd (true, true) ws) d with
     | Some F' => spec_module F' m (tl ws) rest
+    | None => None
+    end
+  end.
+
+(* the whole deviation pass: the deviation statements of all modules in the order in which they are visited,
+   each with the module it is written in *)
+Fixpoint spec_pass (F : forest) (js : list (module * (str * list deviate))) (ws : list (bool * bool))
+  : option forest :=
+  match js with
+  | [] => Some F
+  | j :: rest =>
+    match spec_deviation F (fst j) (hd (true, true) ws) (snd j) with
+    | Some F' => spec_pass F' rest (tl ws)
     | None => None
     end
   end.
